@@ -94,3 +94,44 @@ def matmul_programs(seed, n, kind="abelian", syms=gen.SYMS, tids=None, salt="mat
                       "entry": rng.choice(["method", "symmray", "autoray"])})
         progs.append({"tid": tids(), "inputs": {"a": a, "b": b, "t": t}, "steps": steps})
     return progs
+
+
+def sparse_rank4_programs(seed, n, kind="abelian", syms=gen.SYMS, tids=None, salt="sparse4", rel_clause=None):
+    """First operand with two (or more) free and two contracted legs on NON-leading positions and a few
+    blocks missing, second operand complete: the two operands then assemble the fused contracted index from
+    different sets of pieces (the layout inside a fused charge must not depend on which blocks are stored)."""
+    tids = tids or gen.Tids()
+    progs = []
+    for i in range(n):
+        rng = gen.rng_for(seed, salt, kind, i)
+        sym = syms[i % len(syms)]
+        ra = 4 if rng.random() < 0.8 else 3
+        a = gen.rand_array(rng, sym, ra, kind, dtype=rng.choice(["float64", "complex128"]), sparse=0.0, minc=2, maxc=2,
+                           maxd=1 if rng.random() < 0.6 else 2, phases=0.3 if kind == "fermionic" else 0.0,
+                           oddpos=rng.randint(1, 4))
+        nsec = len(gen.D.valid_sectors(sym, a["ix"], tuple(a["charge"])))
+        if nsec >= 2:
+            k = rng.randint(1, min(3, nsec - 1))
+            a["drop"] = sorted(set([0] if rng.random() < 0.6 else []) | set(rng.sample(range(nsec), k)))
+        ncon = 2 if ra == 4 else rng.randint(1, 2)
+        nfree = rng.randint(0, 2)
+        b, axes_a, axes_b = partner_for(rng, a, ncon, nfree, kind, oddpos=rng.randint(5, 8), sparse=0.0, maxc=2, maxd=1,
+                                        phases=0.3 if kind == "fermionic" else 0.0)
+        b["drop"] = [] if rng.random() < 0.7 else b["drop"]
+        steps = []
+        outs = []
+        for mode in ("fused", "blockwise", "auto"):
+            o = f"c_{mode}"
+            steps.append({"op": "tensordot", "in": ["a", "b"], "out": [o],
+                          "args": {"axes": [list(axes_a), list(axes_b)], "mode": mode, "preserve_array": True},
+                          "entry": "symmray"})
+            outs.append(o)
+        if rel_clause:
+            steps.append({"op": "rel", "in": [outs[0], outs[1]], "out": [], "args": {"how": "array_equal_den", "clause": rel_clause}})
+            steps.append({"op": "rel", "in": [outs[0], outs[2]], "out": [], "args": {"how": "array_equal_den", "clause": rel_clause + ".auto"}})
+        # and the other way round
+        steps.append({"op": "tensordot", "in": ["b", "a"], "out": ["c_rev"],
+                      "args": {"axes": [list(axes_b), list(axes_a)], "mode": "fused", "preserve_array": True},
+                      "entry": "symmray"})
+        progs.append({"tid": tids(), "inputs": {"a": a, "b": b}, "steps": steps})
+    return progs
